@@ -18,7 +18,9 @@ RULE = ("roll-up streams: RU2 / RU3 / RU4 sent once or repeated on every line, C
         "text (whitespace removed); every row is a contiguous run inside one caption; captions "
         "grouped by start time: starts strictly increasing between groups, start < end, each "
         "group ends exactly when the next begins. Non-trivial: >= 3 rows. "
-        'The SCCReader object is fresh or has a past (see C05). ')
+        'The SCCReader object is fresh or has a past (see C05). '
+        "Lines are written in lexical variants too: 1-3 blanks between code words, blanks for "
+        "the tab after the timecode, blanks / a tab after the last word. ")
 ASSUMPTIONS = [
     "captions that share a start time (rows of one paint-on burst on non-adjacent screen rows) "
     "are one display state: adjacency of end/start is judged between groups of equal start",
@@ -74,7 +76,8 @@ def stream_strategy(tier):
             return {"mode": "roll", "ru": draw(st.sampled_from(["RU2", "RU3", "RU4"])),
                     "ru_each": draw(st.booleans()), "rows": rows, "drop": draw(st.booleans()),
                     "double": draw(st.booleans()), "t0": draw(st.sampled_from([0, 0, 1, 30, 108000])),
-                    "close": draw(st.booleans()), "reuse": draw(SP.reuse_strategy())}
+                    "close": draw(st.booleans()), "reuse": draw(SP.reuse_strategy()),
+                    "spacing": draw(SP.spacing_strategy())}
         bursts = []
         for b in range(draw(st.integers(1, 4))):
             n = draw(st.integers(1, 3))
@@ -87,7 +90,8 @@ def stream_strategy(tier):
             bursts.append({"rows": rows, "gap": draw(st.integers(3, 60))})
         return {"mode": "paint", "bursts": bursts, "drop": draw(st.booleans()),
                 "double": draw(st.booleans()), "t0": draw(st.sampled_from([0, 0, 1, 108000])),
-                "close": draw(st.booleans()), "reuse": draw(SP.reuse_strategy())}
+                "close": draw(st.booleans()), "reuse": draw(SP.reuse_strategy()),
+                    "spacing": draw(SP.spacing_strategy())}
     return build()
 
 
@@ -132,10 +136,10 @@ def build(case):
             ww, text = _row_words(r["parts"], d)
             w += ww
             rows_text.append(text)
-            lines += [R.timecode(t, case["drop"]) + "\t" + " ".join(w), ""]
+            lines += [SP.fmt_line(R.timecode(t, case["drop"]), w, case.get("spacing")), ""]
             t += len(w) + r["gap"]
         if case["close"]:
-            lines += [R.timecode(t, case["drop"]) + "\t" + " ".join(ctrl("CR")), ""]
+            lines += [SP.fmt_line(R.timecode(t, case["drop"]), ctrl("CR"), case.get("spacing")), ""]
     else:
         for b in case["bursts"]:
             w = ctrl("RDC")
@@ -144,10 +148,10 @@ def build(case):
                 ww, text = _row_words(r["parts"], d)
                 w += ww
                 rows_text.append(text)
-            lines += [R.timecode(t, case["drop"]) + "\t" + " ".join(w), ""]
+            lines += [SP.fmt_line(R.timecode(t, case["drop"]), w, case.get("spacing")), ""]
             t += len(w) + b["gap"]
         if case["close"]:
-            lines += [R.timecode(t, case["drop"]) + "\t" + " ".join(ctrl("RDC")), ""]
+            lines += [SP.fmt_line(R.timecode(t, case["drop"]), ctrl("RDC"), case.get("spacing")), ""]
     return "\n".join(lines), rows_text
 
 
